@@ -45,22 +45,33 @@ func c16Strip(doc string, path ...string) string {
 
 // c16CacheInst: the cache service with the node its head events point to.
 type c16CacheInst struct {
+	style  string
+	node1  *c16Server // the second node behind the `first` signed beacon block strategy (style first)
 	node   *c16Server
 	gate   *c16Gate
 	events *c16Events
 	s      *standardcache.Service
 }
 
-func c16NewCacheInst(ctx context.Context, _ map[string]string) c16Instance {
+func c16NewCacheInst(ctx context.Context, first map[string]string) c16Instance {
 	in := &c16CacheInst{node: c16NewNode(c16NodeVersion("teku")), gate: &c16Gate{}, events: &c16Events{handlers: map[string]eth2client.EventHandlerFunc{}}}
 	in.node.Gate("/eth/v2/beacon/blocks/", in.gate)
 	client := c16NodeClient(ctx, in.node)
+	clients := map[string]eth2client.Service{}
+	style := first["style"]
+	in.style = style
+	if style != "direct" && style != "" {
+		// main.go's default: the `first` strategy over the beacon nodes
+		in.node1 = c16NewNode(c16NodeVersion("lighthouse"))
+		clients[in.node.URL()] = client
+		clients[in.node1.URL()] = c16NodeClient(ctx, in.node1)
+	}
 	// the node has no block at start-up; the scripted blocks arrive with the events
 	s, err := standardcache.New(ctx,
 		standardcache.WithLogLevel(c16LogLevel()),
 		standardcache.WithMonitor(nullmetrics.New()),
 		standardcache.WithChainTime(c16NowChainTime()),
-		standardcache.WithSignedBeaconBlockProvider(client.(eth2client.SignedBeaconBlockProvider)),
+		standardcache.WithSignedBeaconBlockProvider(c16SignedBlockProvider(ctx, style, clients, client)),
 		standardcache.WithBeaconBlockHeadersProvider(mock.NewBeaconBlockHeadersProvider()),
 		standardcache.WithEventsProvider(in.events),
 		standardcache.WithScheduler(verifsupport.NewScheduler()),
@@ -76,21 +87,29 @@ func (in *c16CacheInst) Gate() *c16Gate { return in.gate }
 func (in *c16CacheInst) Close() {
 	in.gate.Release()
 	in.node.Close()
+	if in.node1 != nil {
+		in.node1.Close()
+	}
 }
 
 // Prepare: the block the node has for the head of call k (slot and execution block number advance).
 func (in *c16CacheInst) Prepare(k int, sh map[string]string) {
-	ver := sh["ver"]
-	if a, ok := c16BadAnswer(sh["body"]); ok {
-		in.node.Set("/eth/v2/beacon/blocks/", a)
-		return
+	in.node.Set("/eth/v2/beacon/blocks/", c16CacheBlockAnswer(k, sh["ver"], sh["body"]))
+	if in.node1 != nil {
+		in.node1.Set("/eth/v2/beacon/blocks/", c16CacheBlockAnswer(k, sh["ver"], c16Node1Kind(sh)))
+	}
+}
+
+func c16CacheBlockAnswer(k int, ver string, body string) c16Answer {
+	if a, ok := c16BadAnswer(body); ok {
+		return a
 	}
 	blockVer := ver
 	if ver == "unknown" {
 		blockVer, ver = "deneb", "verkle"
 	}
 	data := c16SignedBlockData(blockVer, c16BlockSpec{Slot: c16CallSlot(k), Number: uint64(100 + k - 1)})
-	switch sh["body"] {
+	switch body {
 	case "nomessage":
 		data = c16Strip(data, "message")
 	case "nobody":
@@ -100,8 +119,8 @@ func (in *c16CacheInst) Prepare(k int, sh map[string]string) {
 			data = c16Strip(data, "message", "body", "execution_payload")
 		}
 	}
-	in.node.Set("/eth/v2/beacon/blocks/", c16Answer{Status: 200, Headers: map[string]string{"Eth-Consensus-Version": ver},
-		Body: fmt.Sprintf(`{"version":%q,"execution_optimistic":false,"finalized":false,"data":%s}`, ver, data)})
+	return c16Answer{Status: 200, Headers: map[string]string{"Eth-Consensus-Version": ver},
+		Body: fmt.Sprintf(`{"version":%q,"execution_optimistic":false,"finalized":false,"data":%s}`, ver, data)}
 }
 
 func (in *c16CacheInst) Invoke(ctx context.Context, k int, sh map[string]string) c16Res {
@@ -111,6 +130,7 @@ func (in *c16CacheInst) Invoke(ctx context.Context, k int, sh map[string]string)
 	switch sh["event"] {
 	case "head":
 		in.events.handlers["head"](&apiv1.Event{Topic: "head", Data: &apiv1.HeadEvent{Slot: slot, Block: root}})
+		c16Settle(in.style)
 	case "block":
 		in.events.handlers["block"](&apiv1.Event{Topic: "block", Data: &apiv1.BlockEvent{Slot: slot, Block: root}})
 		got, err := in.s.BlockRootToSlot(ctx, root)
